@@ -261,7 +261,7 @@ def model_check(v, thorough):
     from concurrent.futures import ThreadPoolExecutor
     cfgs = [('Mux_small.cfg', None), ('Mux_naive.cfg', 'PerStreamOrder'), ('Mux_witness.cfg', 'NeverInterleaved')]
     if thorough:
-        cfgs += [('Mux.cfg', None), ('Mux_three.cfg', None)]
+        cfgs += [('Mux.cfg', None), ('Mux_three.cfg', None), ('Mux_conn3.cfg', None)]
 
     def one(c):
         return c, tlc.run('Mux', c[0], workers=4, timeout=1500, name='mux_' + c[0].replace('.cfg', ''))
@@ -287,3 +287,6 @@ def check(v):
     model_check(v, thorough)
     replay_graph(v)
     replay_graph(v, cfg='Mux_conn.cfg')         # connection-level frames (stream 0) next to one stream
+    if thorough:
+        # connection-level frames next to TWO streams behind a queued SETUP (164 434 states); the first 40 000 transitions in DFS order
+        replay_graph(v, cfg='Mux_conn3.cfg', max_edges=40000)
